@@ -39,14 +39,16 @@ type regObj struct {
 }
 
 type regOut struct {
-	Labels  []int64  `json:"labels"`
-	Choices []int64  `json:"choices"` // key number visited at a label-31 step, else -1
-	Sched   []int    `json:"sched"`
-	Objs    []regObj `json:"objects"`   // object 0 is the root
-	Gets    []int64  `json:"get_results"` // object index returned by each completed get, in completion order
-	Live    []string `json:"-"`
-	Panic   string   `json:"panic,omitempty"`
-	Blocked int      `json:"blocked_steps"`
+	Labels         []int64  `json:"labels"`
+	Choices        []int64  `json:"choices"` // key number visited at a label-31 step, else -1
+	Sched          []int    `json:"sched"`
+	Objs           []regObj `json:"objects"`     // object 0 is the root
+	Gets           []int64  `json:"get_results"` // object index returned by each completed get, in completion order
+	Live           []string `json:"-"`
+	Panic          string   `json:"panic,omitempty"`
+	ClosedReturned string   `json:"closed_scope_returned,omitempty"`
+	Blocked        int      `json:"blocked_steps"`
+	Ambiguous      bool     `json:"ambiguous,omitempty"` // two goroutines were blocked at once: executed order not determined
 }
 
 var regSanOpts = &tally.SanitizeOptions{
@@ -101,6 +103,7 @@ type regRun struct {
 	out    regOut
 	keyNum map[string]int64
 	note   map[uint64]int64 // goroutine id -> key number of the last visited entry
+	last   []int            // last label per thread
 }
 
 func (r *regRun) objOf(s tally.Scope, spell int) int {
@@ -159,10 +162,21 @@ func (r *regRun) app(prog []regOp) func() {
 			}
 			switch o.Op {
 			case "get":
+				r.mu.Lock()
+				closedBefore := map[string]bool{}
+				for _, ob := range r.out.Objs {
+					if ob.Closed {
+						closedBefore[ob.ID] = true
+					}
+				}
+				r.mu.Unlock()
 				cur = r.root.Tagged(map[string]string{"k": string(r.c.Spell[o.K])})
 				curObj = r.objOf(cur, o.K)
 				r.mu.Lock()
 				r.out.Gets = append(r.out.Gets, int64(curObj))
+				if closedBefore[r.out.Objs[curObj].ID] && r.out.ClosedReturned == "" {
+					r.out.ClosedReturned = fmt.Sprintf("requesting spelling %q returned object %d, whose Close had been called before the request", string(r.c.Spell[o.K]), curObj)
+				}
 				r.mu.Unlock()
 			case "inc":
 				if cur != nil {
@@ -200,7 +214,13 @@ func (r *regRun) passes(n int) func() {
 }
 
 func (r *regRun) install() {
-	setYield(r.ctl)
+	// only the registry's yield points take part; the yields inside
+	// counter.value, the gauge and the metric getters pass through
+	tally.VerifSetYield(func(p int) {
+		if p == 0 || (p >= 31 && p <= 45) {
+			r.ctl.Yield(p)
+		}
+	})
 	tally.VerifSetNote(func(p int, key string) {
 		n, ok := r.keyNum[key]
 		if !ok {
@@ -216,15 +236,55 @@ func (r *regRun) uninstall() {
 	tally.VerifSetNote((func(int, string))(nil))
 }
 
-// step resumes thread i; records label and, for a label-31 step, the key visited.
-func (r *regRun) step(i int) int {
+// holdsR: parked at this label the goroutine holds the shard's read lock;
+// wantsW: its next action is to take the write lock. The controller never
+// resumes a goroutine that would block (such a pick is a stutter), so that the
+// executed order is fully determined by the schedule. Writers never park while
+// holding the write lock (there is no yield point inside those regions).
+func holdsR(l int) bool { return l == 31 || l == 32 || l == 34 || l == 35 || l == 41 || l == 44 }
+func wantsW(l int) bool { return l == 33 || l == 45 }
+
+func (r *regRun) enabled(i int) bool {
+	if r.ctl.Done(i) {
+		return false
+	}
+	if i < len(r.last) && wantsW(r.last[i]) {
+		for j, l := range r.last {
+			if j != i && holdsR(l) && !r.ctl.Done(j) {
+				return false
+			}
+		}
+	}
+	return true
+}
+
+// step resumes thread i if it is enabled; records the label reached and, for
+// a label-31 step, the registry key visited. Returns false for a stutter.
+func (r *regRun) step(i int) bool {
+	for len(r.last) <= i {
+		r.last = append(r.last, 0)
+	}
+	if !r.enabled(i) {
+		return false
+	}
 	l := r.ctl.Step(i)
 	if l == Stutter {
-		l = Finished
+		return false
 	}
 	if l == Blocked {
+		// not expected: the enabledness rule above should rule it out
 		r.out.Blocked++
+		r.out.Ambiguous = true
+		for guard := 0; guard < 2000 && l == Blocked; guard++ {
+			l = r.ctl.Step(i)
+		}
 	}
+	r.last[i] = l
+	r.record(i, l)
+	return true
+}
+
+func (r *regRun) record(i, l int) {
 	r.out.Labels = append(r.out.Labels, int64(l))
 	r.out.Sched = append(r.out.Sched, i)
 	ch := int64(-1)
@@ -237,7 +297,6 @@ func (r *regRun) step(i int) int {
 		r.mu.Unlock()
 	}
 	r.out.Choices = append(r.out.Choices, ch)
-	return l
 }
 
 // collect attributes delivered counter values to objects by counter name.
@@ -274,6 +333,9 @@ func (r *regRun) collect() {
 func regPredicate(out *regOut) string {
 	if out.Panic != "" {
 		return "panic: " + out.Panic
+	}
+	if out.ClosedReturned != "" {
+		return out.ClosedReturned + " (a scope obtained after Close must be functional)"
 	}
 	live := map[string]bool{}
 	for _, id := range out.Live {
